@@ -35,17 +35,24 @@ def freeze(x):
     return x
 
 
-def make_transformer(base, style, rules, toks):
+FALSY = {'none': None, 'zero': 0, 'empty': '', 'false': False}
+
+
+def make_transformer(base, style, rules, toks, falsy=None):
+    """falsy = (kind, names): the callbacks of these names return a falsy value (None, 0, '', False) instead of a tuple"""
+    fk, fnames = falsy or (None, ())
+    def ret(name, value):
+        return FALSY[fk] if name in fnames else value
     ns = {}
     for r in rules:
-        if style == 'plain': ns[r] = (lambda name: lambda self, ch: (name, freeze(ch)))(r)
-        elif style == 'inline': ns[r] = (lambda name: lambda self, *ch: (name, freeze(ch)))(r)
-        else: ns[r] = (lambda name: lambda self, t: (name, str(t.data), freeze(t.children)))(r)      # tree style: the node name the callback sees matters too
+        if style == 'plain': ns[r] = (lambda name: lambda self, ch: ret(name, (name, freeze(ch))))(r)
+        elif style == 'inline': ns[r] = (lambda name: lambda self, *ch: ret(name, (name, freeze(ch))))(r)
+        else: ns[r] = (lambda name: lambda self, t: ret(name, (name, str(t.data), freeze(t.children))))(r)      # tree style: the node name the callback sees matters too
     cls = type('T', (BASES[base],), ns)
     if style == 'inline': cls = v_args(inline=True)(cls)
     elif style == 'tree': cls = v_args(tree=True)(cls)
     for t in toks:
-        setattr(cls, t, (lambda name: lambda self, tok: ('tok', name, str(tok)))(t))
+        setattr(cls, t, (lambda name: lambda self, tok: ret(name, ('tok', name, str(tok))))(t))
     return cls
 
 
@@ -70,7 +77,11 @@ def check(case, ctx):
         rules, toks = names_of(case['g'])
     cb_rules = [r for r, on in zip(rules, case['rule_mask']) if on]
     cb_toks = [t for t, on in zip(toks, case['tok_mask']) if on]
-    T = make_transformer(case['base'], case['style'], cb_rules, cb_toks)
+    falsy = None
+    if case.get('falsy'):
+        names = cb_rules + cb_toks
+        falsy = (case['falsy'][0], {n for n, on in zip(names, case['falsy'][1] * 8) if on})
+    T = make_transformer(case['base'], case['style'], cb_rules, cb_toks, falsy)
     try:
         plain = Lark(g, parser='lalr', lexer=case['lexer'])
         emb = Lark(g, parser='lalr', lexer=case['lexer'], transformer=T())
@@ -131,6 +142,8 @@ def embedded_cases(draw):
             'lexer': draw(st.sampled_from(['contextual', 'basic'])),
             'rule_mask': draw(st.lists(st.integers(0, 3).map(lambda x: x != 0), min_size=12, max_size=12)),
             'tok_mask': draw(st.lists(st.integers(0, 3).map(lambda x: x != 0), min_size=8, max_size=8))}
+    # some callbacks return a falsy value (None, 0, '', False): such a result is a result like any other
+    case['falsy'] = draw(st.one_of(st.none(), st.tuples(st.sampled_from(sorted(FALSY)), st.lists(st.booleans(), min_size=3, max_size=3)).map(list)))
     if lib is None:
         gi = draw(gramgen.grammar_and_inputs(O_GEN, max_len=9, n=5))
         case['g'] = gi['g']; case['texts'] = gi['texts']
